@@ -30,7 +30,7 @@ CHECKS = {
         'every location (hostile attribute values by kind incl. self/cyclic references, attribute delete/duplicate/rename/add, element delete/duplicate/move-under-every-element/rename-to-every-'
         'element-name/8 namespaces, 15 inserted node kinds at every child position, truncation at every token boundary, 22 byte-level edits) x {strict, permissive} parser; all pairs of a reduced '
         'alphabet (thorough); all MathML trees apply(head, 0-3 operands), container(name, 0-3 children), apply(H, C) over the validator\'s vocabulary + 5 unsupported names (quick), one arbitrary '
-        'operand among <= 3, depth 3 over 14 arity-sensitive operators (thorough); 16 scale structures at n in {1,10,100,250} (1000 on the plain build) and 12 cycle kinds of length 1-3, each '
+        'operand among <= 3, depth 3 over 14 arity-sensitive operators (thorough); 16 scale structures at n in {1,10,100} (thorough: 250, and 1000 on the plain build) and 12 cycle kinds of length 1-3, each '
         'pipeline stage in isolation. Every stage (parse, validate, print +autoIds +reparse, isDefined/hasImports/requiresImports/isResolved on every entity, resolve + flatten with an in-memory '
         'library under both importer modes, analyse, generate C and Python) runs on whatever the previous one returned. Complete for the stated bounds; nothing is sampled.',
    note='Trusted: ASan/UBSan and the exit status as crash oracle, libxml2 (called directly) as the reference for well-formedness, a harness-side SIGSEGV handler that names a stack overflow after '
